@@ -863,4 +863,74 @@ theorem week_of_month_witnesses :
   refine ⟨?_, ?_⟩ <;> decide +kernel
 
 
+/-! ## `_merge_two_times_points` ("from May 2 to May 7", "from 2020-01-01 to 2020-03-01") -/
+
+theorem formatDate_not_XXXX (x : Date) : startsWithXXXX (formatDate x) = false := by
+  have : (48 + x.y / 1000 % 10) ≠ 88 := by omega
+  simp [startsWithXXXX, formatDate, pad4, sXXXX, this]
+
+/-- Two fully specified dates `begin ≤ end` (future = past for each, TIMEXes = the dates): the values are those dates
+and the TIMEX is the `dayTriple` of Props/C10, hence `tripleOK`; with `begin < end` the range is well formed. -/
+theorem merge_definite_ok (b e : Date) (hb : b.valid = true) (he : e.valid = true) (hle : b.ord ≤ e.ord)
+    (nb : b ≠ ⟨1, 1, 1⟩) (ne : e ≠ ⟨1, 1, 1⟩) :
+    mergeTwoTimePoints ⟨b, 0⟩ ⟨b, 0⟩ (formatDate b) ⟨e, 0⟩ ⟨e, 0⟩ (formatDate e) =
+      .ok (dayTriple b e) ⟨b, 0⟩ ⟨e, 0⟩ ⟨b, 0⟩ ⟨e, 0⟩ ∧
+    tripleOK (dayTriple b e) (some (formatDate b)) (some (formatDate e)) = true ∧
+    (b.ord < e.ord → rangeOK ⟨b, 0⟩ ⟨e, 0⟩) := by
+  refine ⟨?_, between_dates_consistent b e hb he hle, fun h => ⟨hb, he, h, nb, ne⟩⟩
+  have l1 : DateTime.lt ⟨e, 0⟩ ⟨b, 0⟩ = false := by
+    rw [← Bool.not_eq_true, lt_iff]; simp only; omega
+  have nbm : (⟨b, 0⟩ : DateTime) ≠ DateUtils.minValue := by
+    intro h; apply nb; have := congrArg DateTime.date h; simpa [DateUtils.minValue] using this
+  have nem : (⟨e, 0⟩ : DateTime) ≠ DateUtils.minValue := by
+    intro h; apply ne; have := congrArg DateTime.date h; simpa [DateUtils.minValue] using this
+  unfold mergeTwoTimePoints
+  simp only [l1, Bool.false_eq_true, if_false, formatDate_not_XXXX, Bool.false_and]
+  unfold periodTimexStr
+  simp only [nbm, nem, ne_eq, not_false_eq_true, and_self, if_true]
+  have : intStr ((e.ord : Int) - b.ord) = natStr (e.ord - b.ord) := by
+    unfold intStr; rw [if_neg (by omega)]; congr 1; omega
+  rw [this]
+  simp [dayTriple]
+
+/-- The swap rules keep each pair ordered whenever one of the two candidates for its begin is not after its end:
+future: `begin := past begin` when the future begin lies after the future end; past: `end := future end` when the
+past end lies before the past begin. -/
+theorem merge_pairs_ordered (fb pb fe pe : DateTime) (t1 t2 t : Str) (rb re qb qe : DateTime)
+    (h : mergeTwoTimePoints fb pb t1 fe pe t2 = .ok t rb re qb qe) :
+    re = fe ∧ qb = pb ∧ rb = (if fe.lt fb then pb else fb) ∧ qe = (if pe.lt pb then fe else pe) ∧
+    ((fe.lt fb = false ∨ fe.lt pb = false) → re.lt rb = false) ∧
+    ((pe.lt pb = false ∨ fe.lt pb = false) → qe.lt qb = false) := by
+  unfold mergeTwoTimePoints at h
+  simp only [Res.ok.injEq] at h
+  obtain ⟨_, a, b, c, d⟩ := h
+  subst a b c d
+  refine ⟨rfl, rfl, rfl, rfl, ?_, ?_⟩
+  · intro hh
+    by_cases c : fe.lt fb = true
+    · rw [if_pos c]; rcases hh with x | x
+      · rw [x] at c; simp at c
+      · exact x
+    · rw [if_neg c]; simpa using c
+  · intro hh
+    by_cases c : pe.lt pb = true
+    · rw [if_pos c]; rcases hh with x | x
+      · rw [x] at c; simp at c
+      · exact x
+    · rw [if_neg c]; simpa using c
+
+/-- Witnesses: (1) two definite dates in the wrong order are NOT swapped: begin after end and a negative duration
+(`from 2019-08-01 to 2016-11-07` → `P-997D`) — the shape of the recorded C10/C11 finding "from 2019-aug-1 to today";
+(2) `from Feb 28 to Mar 1` without a year carries two TIMEXes (leap / non-leap year). -/
+theorem merge_witnesses :
+    mergeTwoTimePoints ⟨⟨2019, 8, 1⟩, 0⟩ ⟨⟨2019, 8, 1⟩, 0⟩ ("2019-08-01".toList.map Char.toNat)
+        ⟨⟨2016, 11, 7⟩, 0⟩ ⟨⟨2016, 11, 7⟩, 0⟩ ("2016-11-07".toList.map Char.toNat) =
+      .ok ("(2019-08-01,2016-11-07,P-997D)".toList.map Char.toNat) ⟨⟨2019, 8, 1⟩, 0⟩ ⟨⟨2016, 11, 7⟩, 0⟩ ⟨⟨2019, 8, 1⟩, 0⟩ ⟨⟨2016, 11, 7⟩, 0⟩ ∧
+    mergeTwoTimePoints ⟨⟨2020, 2, 28⟩, 0⟩ ⟨⟨2019, 2, 28⟩, 0⟩ ("XXXX-02-28".toList.map Char.toNat)
+        ⟨⟨2020, 3, 1⟩, 0⟩ ⟨⟨2019, 3, 1⟩, 0⟩ ("XXXX-03-01".toList.map Char.toNat) =
+      .ok ("(XXXX-02-28,XXXX-03-01,P2D)|(XXXX-02-28,XXXX-03-01,P1D)".toList.map Char.toNat)
+        ⟨⟨2020, 2, 28⟩, 0⟩ ⟨⟨2020, 3, 1⟩, 0⟩ ⟨⟨2019, 2, 28⟩, 0⟩ ⟨⟨2019, 3, 1⟩, 0⟩ := by
+  refine ⟨?_, ?_⟩ <;> decide +kernel
+
+
 end RTV.Periods
